@@ -70,6 +70,7 @@ table! {
     c10::h_roundtrip_api,
     c10::h_classify,
     c10::h_lines,
+    c10::h_interleave,
     c16::h_records,
     c16::h_io_error,
     c13::h_file,
